@@ -474,7 +474,7 @@ fn growth_with_slack(ctx: &mut Ctx) {
             for &m in &sizes {
                 for op in 0..4 {
                     let desc = || format!("{} then {} (c={c}, m={m})", ["with_capacity(c)", "c pushes", "new(c) then clear-by-resize(0)", "from_raw_parts with 3 spare words"][how], ["resize(m,true)", "m pushes", "extend(m bits)", "resize(m,false) then set(m-1)"][op]);
-                    probe(ctx, "BitVec::<growth with slack>", desc, || {
+                    probe(ctx, "BitVec::<growth-with-slack>", desc, || {
                         let mut b: BitVec = match how {
                             0 => BitVec::with_capacity(c),
                             1 => {
@@ -509,7 +509,7 @@ fn growth_with_slack(ctx: &mut Ctx) {
                         (b.len(), b.count_ones(), b.iter_ones().last())
                     });
                     for w in [0usize, 1, 7, 13, 64] {
-                        probe(ctx, "BitFieldVec::<growth with slack>", || format!("width={w} {}", desc()), || {
+                        probe(ctx, "BitFieldVec::<growth-with-slack>", || format!("width={w} {}", desc()), || {
                             let mut b: BitFieldVec<usize> = match how {
                                 0 => BitFieldVec::with_capacity(w, c),
                                 1 => {
